@@ -5,12 +5,12 @@ VROOT=$(cd "$(dirname "$0")/.." && pwd)
 wt=$1
 for d in $wt/_seed/[0-9]*; do
   n=$(basename $d); [ -f $d/patch.diff ] || continue
-  git -C $wt checkout -q -- .
+  git -C $wt checkout -q -- . ; git -C $wt clean -fdq -- src libs tests examples
   git -C $wt apply $d/patch.diff || { echo "$wt/$n: PATCH-DOES-NOT-APPLY"; continue; }
   for i in 01 02 03 04 05 06 07 08 09 10 11 12 13 14 15 16 17 18 19 20; do
     out=$(cd $VROOT && VERIF_REPO=$wt ./check C$i 2>&1); rc=$?
     if [ $rc -ne 0 ]; then echo "$wt/$n C$i: ALARM $(echo "$out" | grep -E '^(VIOLATION|correspondence)' | head -2 | tr '\n' ' ')"; fi
   done
   echo "$wt/$n: done"
-  git -C $wt checkout -q -- .
+  git -C $wt checkout -q -- . ; git -C $wt clean -fdq -- src libs tests examples
 done
